@@ -1,4 +1,5 @@
 import H2V.Lemmas.ConnCountsPLocal
+import H2V.Lemmas.ConnCountsPWitness
 /-
   C18 — per-connection state is bounded by configuration, whatever the peer does.
   Property theorems only (lemmas: `H2V/Lemmas/ConnCountsP*.lean`, notes: `ConnCountsPNOTES.md`).
@@ -70,10 +71,32 @@ theorem empty_data_flood_is_cut_off (c : Counts) (h : Generated.Consts.MAX_RECV_
 /-- non-vacuity -/
 example : Generated.Consts.MAX_RECV_EMPTY_DATA_FRAMES ≤ ({ numRecvEmptyDataFrames := 100 } : Counts).numRecvEmptyDataFrames := by decide
 
+/-- **The quotas hold in every reachable state, whatever the peer and the application do.**
+    (`Reach`: see `H2V.Props.C05.slots_are_accounted_everywhere`; arbitrary frames, arbitrary API
+    calls, arbitrary order.)  As long as no `assert!` has fired:
+    * the memory of locally reset streams is bounded: `pending_reset_expired` holds exactly
+      `num_local_reset_streams` entries, at most `max_concurrent_reset_streams`;
+    * at most `max_pending_accept_reset_streams` streams are waiting for `accept` in a remotely reset state
+      (`num_remote_reset_streams`);
+    * at most `max_local_error_reset_streams` stream errors have been answered with RST_STREAM;
+    * at most `max_concurrent_streams` peer-initiated streams are counted. -/
+theorem quotas_hold_everywhere {s : Streams} (h : Reach s) (hp : s.panicked = none) :
+    s.recv.pendingResetExpired.length = s.counts.numLocalResetStreams ∧
+    s.recv.pendingResetExpired.length ≤ s.counts.maxLocalResetStreams ∧
+    s.counts.numRemoteResetStreams ≤ s.counts.maxRemoteResetStreams ∧
+    (∀ m, s.counts.maxLocalErrorResetStreams = some m → s.counts.numLocalErrorResetStreams ≤ m) ∧
+    s.counts.numRecvStreams ≤ s.counts.maxRecvStreams := by
+  have hi := h.inv.2 hp
+  exact ⟨hi.reset.symm, by rw [← hi.reset]; exact hi.resetLe, hi.remoteLe, hi.errLe, hi.recvLe⟩
+
+/-- non-vacuity -/
+example : Reach wS2 ∧ wS2.panicked = none := ⟨wS2_reach, wS2_facts.1⟩
+
 #print axioms reset_flood_is_cut_off
 #print axioms error_reset_flood_is_cut_off
 #print axioms reset_memory_is_bounded
 #print axioms tiny_data_flood_is_cut_off
 #print axioms empty_data_flood_is_cut_off
+#print axioms quotas_hold_everywhere
 
 end H2V.Props.C18
